@@ -246,6 +246,15 @@ func c10Structured(r *fw.Rec, kind string, blk, nblk int) {
 		for i := 0; i < nr*6; i++ {
 			add(fmt.Sprintf("0xM%016X%016X", rng.Uint64(), rng.Uint64()), "prng")
 		}
+		if blk == 0 {
+			// the ends of the range: largest and smallest finite pairs, pairs of infinities
+			add("0xM7FEFFFFFFFFFFFFF7C8FFFFFFFFFFFFF", "extreme:largest-finite")
+			add("0xMFFEFFFFFFFFFFFFFFC8FFFFFFFFFFFFF", "extreme:largest-finite")
+			add("0xM7FEFFFFFFFFFFFFF0000000000000000", "extreme:largest-double")
+			add("0xM7FF0000000000000FFF0000000000000", "extreme:infinities-of-opposite-sign")
+			add("0xM7FF00000000000007FF0000000000000", "extreme:infinities-of-equal-sign")
+			add("0xM00000000000000010000000000000000", "extreme:smallest-subnormal")
+		}
 	}
 	// one-digit mantissas times powers of ten, both signs (the printer's
 	// scientific notation with a single digit before the exponent); for half and
